@@ -4,6 +4,11 @@ import json, os
 VERIF = os.path.dirname(os.path.dirname(os.path.abspath(__file__)))
 
 CLAIMS = {
+ "C17": dict(
+  technique="Coq proof (invariant relating the colour memo to the rendered rows, induction over the key sequence) + black-box correspondence of decoded background colours + extracted boolean specification as oracle",
+  text="Machine-checked proof that the blame colour assignment (get_color/get_next_color) satisfies the three colour clauses for every key sequence and every palette of >= 2 distinct colours, and is total for every mixture of git-coloured and plain lines; the hand-written model is tied to the code by running generated blame streams (exhaustive small scope + random + git-coloured mixtures) through the real binary and comparing decoded background colours row by row; the extracted specb (proved equivalent to the specification) and a row-content oracle (code, line number, metadata blanking) are evaluated on the implementation's output.",
+  note="Trusted: Coq kernel; black-box harness and terminal decoder (tools/term.py); palette colours distinct; row contents are decided on the implementation by the oracle, not by a theorem. No axioms.",
+  design="§6 C17"),
  "C20": dict(
   technique="Coq proof (invariant over all schedules of a lock-granularity transition system) + translator-regenerated shape parameters + forced-schedule correspondence on the real binary",
   text="Machine-checked proof in Coq 8.16 that the mutex/condvar protocol model never returns Pending, always reports a launched command, is deadlock-free and makes progress, for every schedule and every number of queries; the model's shape parameters are re-read from src/utils/process.rs on every run (tie lemma C20_code_shape), and every order of critical sections (publication x 1-3 queries x placement of the background thread) is forced on the hook-enabled binary and compared with the extracted model and with the property oracle.",
